@@ -245,7 +245,12 @@ pub const CAL_NAMES: &[&str] = &[
 
 pub fn gen_named(rng: &mut Rng) -> String {
     let part = |rng: &mut Rng| -> String {
-        let k = rng.usize_in(1, 3);
+        // mostly 1..3 names; sometimes a long list (repeats allowed: "tgt,tgt" is legal)
+        let k = if rng.chance(0.08) {
+            rng.usize_in(4, 14)
+        } else {
+            rng.usize_in(1, 3)
+        };
         let mut v = Vec::new();
         for _ in 0..k {
             let n = rng.pick(CAL_NAMES).to_string();
@@ -281,6 +286,13 @@ pub struct SplineSpec {
     pub kind: u8,
     pub k: usize,
     pub t: Vec<Fx>,
+    /// coefficients given to `PPSpline::new` (length n), or none
+    #[serde(default)]
+    pub preset: Option<Vec<Num>>,
+    /// dual coefficients at even positions are re-expressed on coefficient 0's variable
+    /// list (same Arc)
+    #[serde(default)]
+    pub preset_share: bool,
 }
 
 #[derive(Clone, Debug, Serialize, Deserialize, PartialEq)]
@@ -313,7 +325,21 @@ pub fn gen_spline(rng: &mut Rng) -> SplineSpec {
         kind: rng.below(3) as u8,
         k,
         t: t.into_iter().map(Fx::new).collect(),
+        preset: None,
+        preset_share: false,
     }
+}
+
+/// A coefficient vector of the right length for a spline born solved.
+pub fn gen_preset(rng: &mut Rng, s: &SplineSpec) -> Vec<Num> {
+    let n = s.t.len() - s.k;
+    (0..n)
+        .map(|_| {
+            let nv = rng.usize_in(1, 2);
+            let names = crate::rsx::gen_names(rng, nv, "c_");
+            gen_num_with(rng, s.kind, nv, names, &mut |r| awkward(r, 1e-2, 1e2, true))
+        })
+        .collect()
 }
 
 /// Greville abscissae: a data-site set for which collocation is non-singular.
